@@ -127,7 +127,7 @@ Definition lim_dc (c : cfg) : nat := eff_limit (c_dc c).
    ghost (never read by a guard): s_deliv = results of Next, newest first; s_init = the instances
    put into waitingForInstances; s_gone = instances removed from it by CleanDisappeared;
    s_ownskip = some RunOnce(includingOwn=false) found a not yet notified name of the own instance
-   and skipped it *)
+   and skipped it (the name it had notified about not being ignored) *)
 Record state := mkSt {
   s_bucket : list name;
   s_next : N;
@@ -238,8 +238,13 @@ Definition list_ok (incl : bool) (s : state) : option state :=
 Definition list_fail (s : state) : option state :=
   match s_pend s with Some _ => None | None => Some s end.
 
+(* Go: receiver.go RunOnce, `r.ignoredFilenames[lastNotified.FullName]`; the zero NameInfo ("") is in no map *)
+Definition notif_ignored (s : state) (j : N) : bool :=
+  match s_notif s j with Some y => mem y (s_ign s) | None => false end.
+
 (* Go: receiver.go RunOnce, one iteration of `for inst, ni := range lastSeenByInstance`,
-   with getDownloader and Downloader.NotifyNewSnapshot *)
+   with getDownloader and Downloader.NotifyNewSnapshot.  The own instance is skipped by the polls
+   (includingOwn = false) unless the own snapshot it was last notified about has been ignored since. *)
 Definition notify (c : cfg) (j : N) (s : state) : option state :=
   match s_pend s with
   | None => None
@@ -249,7 +254,8 @@ Definition notify (c : cfg) (j : N) (s : state) : option state :=
       | Some x =>
           let s0 := set_pend s (pend_of incl (adel m j)) in
           if oname_eqb (Some x) (s_notif s j) then Some s0            (* no change *)
-          else if negb incl && (j =? c_own c) then Some (set_ownskip s0 true)   (* own instance *)
+          else if negb incl && (j =? c_own c) && negb (notif_ignored s j)
+               then Some (set_ownskip s0 true)                        (* own instance *)
           else
             let s1 := match s_dl s j with
                       | Some d => set_dl s0 (upd (s_dl s) j (Some (mkDl true (d_last d) (d_phase d))))
